@@ -246,12 +246,26 @@ func genHistory(r *Rng, o GenOpt) *HistInput {
 
 // runHistCases is the common driver of the history-based properties: corpus
 // / replay cases first, then generated ones. post can adjust or classify.
+// histOpts lets a property wrap the history cases into its own case type and
+// add cases of another shape to the same run.
+type histOpts struct {
+	caseType string           // Gallina type of a case (default hcase)
+	wrap     string           // constructor applied to the hcase term
+	extra    func(out *Out)   // emits additional cases (not in replay mode)
+	replay   func(cc CorpusCase, out *Out) bool // handles a corpus / replay case of another shape
+}
+
 func runHistCases(c *Ctx, prop, evalMod string, gens []func(r *Rng) (string, *HistInput),
 	quick, thorough int, rule string, classify func(in *HistInput, obs *HistObs, out *Out),
+	opts ...histOpts,
 ) error {
+	ho := histOpts{caseType: "hcase"}
+	if len(opts) > 0 {
+		ho = opts[0]
+	}
 	out := NewOut(c.OutDir, prop,
 		"From Coq Require Import List NArith.\nFrom AMV Require Import Base.ListSet Model.Schema Model.Resolver Model.Machine Run.EvalHist Run."+evalMod+".\nImport ListNotations.",
-		"hcase", evalMod+".check_all", 150)
+		ho.caseType, evalMod+".check_all", 150)
 	emit := func(kind string, in *HistInput) {
 		obs := runHistory(in)
 		if obs.ParseErr != "" || obs.Err != "" {
@@ -285,10 +299,17 @@ func runHistCases(c *Ctx, prop, evalMod string, gens []func(r *Rng) (string, *Hi
 		if classify != nil {
 			classify(in, obs, out)
 		}
-		out.Add(kind, in, obs, coqHCase(in, obs), trivial, "")
+		term := coqHCase(in, obs)
+		if ho.wrap != "" {
+			term = ho.wrap + " (" + term + ")"
+		}
+		out.Add(kind, in, obs, term, trivial, "")
 	}
 	cases, replayOnly := c.loadCases()
 	for _, cc := range cases {
+		if ho.replay != nil && ho.replay(cc, out) {
+			continue
+		}
 		var in HistInput
 		must(json.Unmarshal(cc.Input, &in))
 		emit("corpus:"+cc.Name, &in)
@@ -299,6 +320,9 @@ func runHistCases(c *Ctx, prop, evalMod string, gens []func(r *Rng) (string, *Hi
 			g := gens[i%len(gens)]
 			kind, in := g(c.Rng)
 			emit(kind, in)
+		}
+		if ho.extra != nil {
+			ho.extra(out)
 		}
 	}
 	out.Close(rule, nil)
